@@ -36,20 +36,10 @@ def _one(items, what):
 
 
 def generate():
-    """Never raises (an exception here would break the build of every other property): when a construct is not found
-    the file is generated with `src_extraction_ok := false` and empty values, and `source_constants` of C08 fails."""
-    try:
-        return _generate()
-    except Exception as e:  # noqa
-        msg = ('%s: %s' % (type(e).__name__, e)).replace('"', "'").replace('\n', ' ')[:300]
-        lines = ['From Coq Require Import ZArith List String.', 'Import ListNotations.', 'Open Scope Z_scope.', '',
-                 'Definition src_extraction_ok : bool := false.',
-                 'Definition src_extraction_error : string := "%s"%%string.' % msg]
-        lines += ['Definition %s : list string := [].' % n for n in ('src_savez_keys', 'src_load_keys_read', 'src_txt_formats')]
-        lines += ['Definition %s : string := ""%%string.' % n for n in ('src_savez_prefix', 'src_savez_ext', 'src_load_prefix', 'src_load_ext', 'src_txt_one', 'src_txt_zero')]
-        lines += ['Definition %s : Z := 0.' % n for n in ('src_load_strip', 'src_txt_sentinel', 'src_txt_minus')]
-        lines += ['Definition src_txt_terminator_is_newline : bool := false.', 'Definition src_dtypes : list (string * Z) := [].', '']
-        return {'DbIOFacts.v': '\n'.join(lines)}
+    """Fail-closed: raises when a construct is not found (harness/facts.py then removes Gen/DbIOFacts.v and C08's source-derived
+    obligations, Properties/C08Src.v, are reported as not attempted)."""
+    out = _generate()
+    return out
 
 
 def _generate():
